@@ -95,11 +95,26 @@ class Module:
         self.inlined_helpers: dict[str, list[str]] = {}
         if not os.environ.get("OCTACHECK_NO_INLINE"):
             self._inline_new_helpers()
+            self._tuple_view_of_new_namedtuples()
         # locals the rules read by name are given their expected names in this parsed copy (octacheck.localnames); no-op on a
         # tree that already uses them
         from .localnames import canonicalise_module
 
         self.renamed_locals = canonicalise_module(self.name, self.functions)
+
+    def _tuple_view_of_new_namedtuples(self) -> None:
+        """NamedTuple classes the pinned tree does not have are read as the plain tuples they are (octacheck.records)"""
+        from .inline import known_functions
+        from .records import tuple_view
+
+        known = known_functions().get(self.name)
+        self.tuple_views = 0
+        if known is None:
+            return
+        known_classes = set(str(known.get("<classes>", "")).split())
+        new_nt = {c: ci.node for c, ci in self.classes.items() if c not in known_classes and any(ast.unparse(b).split(".")[-1] == "NamedTuple" for b in ci.node.bases) and not any(isinstance(m, ast.FunctionDef) for m in ci.node.body)}
+        if new_nt:
+            self.tuple_views = tuple_view(self.tree, new_nt)
 
     def _inline_new_helpers(self) -> None:
         from .inline import inline_helpers, known_functions
